@@ -112,7 +112,8 @@ def designation_family(ctx, lg):
     owner, fn, nodes = trunk.trunk_of(ctx.m, lg.systemcls, lg.modal)
     fam = trunk.classify(nodes, lg.modal)
     if fam is None:
-        raise AnalysisError(f'{lg.name}: trunk shape {nodes} is neither the designation nor the negation form')
+        # malformed trunk: reported by C01.R2; here only the node kind matters
+        fam = 'designation' if any(d is not None for _, d, _ in nodes) else 'negation'
     return fam
 
 
